@@ -450,7 +450,8 @@ def b_event_budget(ctx):
     ge = find_function(t, "generate_events", "RuntimeV1_0")
     if ge is None:
         raise AnalysisError("RuntimeV1_0.generate_events not found", anchor=RT1 + "::generate_events")
-    caps = [i for i in ast.walk(ge) if isinstance(i, ast.If) and "len(new_events)" in src(i.test) and any(isinstance(r, ast.Raise) for r in ast.walk(i))]
+    # the limit ends the processing loop: by an exception, or (since a9774d0+) by ending the turn with the internal error message and leaving the loop
+    caps = [i for i in ast.walk(ge) if isinstance(i, ast.If) and "len(new_events)" in src(i.test) and any(isinstance(r, (ast.Raise, ast.Break)) for r in ast.walk(i))]
     ctx.floor("C16.b.event-budget", RT1, "per-turn event limits", len(caps), 1)
     for i in caps:
         rhs = i.test.comparators[0] if isinstance(i.test, ast.Compare) else None
